@@ -320,6 +320,10 @@ func (t *Trie) mergeScopes(sp *[]scope) {
 				scopes[i].start = scopes[i+1].start
 			}
 			scopes = append(scopes[:i+1], scopes[i+2:]...)
+			if i > 0 {
+				// the merged scope may now reach back into its predecessor
+				i--
+			}
 		} else {
 			i++
 		}
